@@ -6,4 +6,5 @@ let lookup (p : string) : sx -> sx =
   | "C08" -> run_C08
   | "C04" -> run_C04
   | "C12" -> run_C12
+  | "C06" -> run_C06
   | _ -> failwith ("no model entry point for " ^ p)
